@@ -27,7 +27,8 @@ func VH_C11_bindings() {
 	cfgs := make([]htypes.ScheduleConfig, n)
 	for i := 0; i < n; i++ {
 		si := strconv.Itoa(i)
-		cfgs[i].BindingName = "binding" + si
+		// names are not unique: every unnamed schedule binding is called "schedule"
+		cfgs[i].BindingName = zz.OneOf("name"+si, "schedule", "nightly")
 		cfgs[i].AllowFailure = zz.Bool("allow" + si)
 		cfgs[i].ScheduleEntry = smtypes.ScheduleEntry{Crontab: zz.OneOf("crontab"+si, "* * * * *", "*/5 * * * *"), Id: "sched-" + si}
 		cfgs[i].Queue = zz.OneOf("queue"+si, "main", "q1")
@@ -54,30 +55,53 @@ func VH_C11_bindings() {
 	zz.MapOrder(zz.Param("maporder", 1))
 	infos := c.HandleEvent(tick)
 	zz.MapOrder(0)
-	want := 0
+	// the bindings that must get a task, and a one-to-one assignment of the produced
+	// tasks to them in which every task carries its binding's settings
+	var exp []int
 	for i := 0; i < n; i++ {
 		if cfgs[i].ScheduleEntry.Crontab == tick {
-			want++
-			cnt := 0
-			for _, in := range infos {
-				if in.Binding == cfgs[i].BindingName {
-					cnt++
-					zz.Assert(in.AllowFailure == cfgs[i].AllowFailure, "task_carries_allow_failure")
-					zz.Assert(in.QueueName == cfgs[i].Queue, "task_goes_to_binding_queue")
-					zz.Assert(in.Group == cfgs[i].Group, "task_carries_group")
-					zz.Assert(len(in.IncludeSnapshots) == len(cfgs[i].IncludeSnapshotsFrom), "task_carries_snapshot_list")
-					zz.Assert(len(in.BindingContext) == 1, "one_binding_context_per_task")
-					if len(in.BindingContext) == 1 {
-						bc := in.BindingContext[0]
-						zz.Assert(bc.Binding == cfgs[i].BindingName, "context_names_binding")
-						zz.Assert(bc.Metadata.BindingType == htypes.Schedule, "context_is_schedule")
-						zz.Assert(bc.Metadata.Group == cfgs[i].Group, "context_carries_group")
-						zz.Assert(len(bc.Metadata.IncludeSnapshots) == len(cfgs[i].IncludeSnapshotsFrom), "context_carries_snapshot_list")
-					}
-				}
-			}
-			zz.Assert(cnt == 1, "exactly_one_task_per_binding_per_tick")
+			exp = append(exp, i)
 		}
+	}
+	want := len(exp)
+	fits := func(i, j int) bool {
+		in := infos[j]
+		ok := zz.And(in.Binding == cfgs[i].BindingName, in.AllowFailure == cfgs[i].AllowFailure)
+		ok = zz.And(ok, zz.And(in.QueueName == cfgs[i].Queue, in.Group == cfgs[i].Group))
+		ok = zz.And(ok, len(in.IncludeSnapshots) == len(cfgs[i].IncludeSnapshotsFrom))
+		if len(in.IncludeSnapshots) == 1 && len(cfgs[i].IncludeSnapshotsFrom) == 1 {
+			ok = zz.And(ok, in.IncludeSnapshots[0] == cfgs[i].IncludeSnapshotsFrom[0])
+		}
+		if len(in.BindingContext) != 1 {
+			return false
+		}
+		bc := in.BindingContext[0]
+		ok = zz.And(ok, zz.And(bc.Binding == cfgs[i].BindingName, bc.Metadata.Group == cfgs[i].Group))
+		ok = zz.And(ok, bc.Metadata.BindingType == htypes.Schedule)
+		ok = zz.And(ok, len(bc.Metadata.IncludeSnapshots) == len(cfgs[i].IncludeSnapshotsFrom))
+		return ok
+	}
+	var assign func(k int, used []bool) bool
+	assign = func(k int, used []bool) bool {
+		if k == len(exp) {
+			return true
+		}
+		res := false
+		for j := range infos {
+			if used[j] {
+				continue
+			}
+			used[j] = true
+			res = zz.Or(res, zz.And(fits(exp[k], j), assign(k+1, used)))
+			used[j] = false
+		}
+		return res
+	}
+	for _, in := range infos {
+		zz.Assert(len(in.BindingContext) == 1, "one_binding_context_per_task")
+	}
+	if len(infos) == want {
+		zz.Assert(assign(0, make([]bool, len(infos))), "exactly_one_task_per_binding_carrying_its_settings")
 	}
 	zz.Assert(len(infos) == want, "no_task_for_other_bindings")
 	zz.Assert(c.CanHandleEvent(tick) == (want > 0), "can_handle_iff_some_binding_has_crontab")
